@@ -78,7 +78,7 @@ pub fn exec(op: &str, a: &Value) -> Option<Value> {
             json!(a["names"].as_array().expect("names").iter().any(|n| Some(n.as_str().unwrap().to_string()) == e))
         }),
         // PlainDate::from_partial (or Calendar::date_from_partial with via = "calendar") -> ISO date + calendar id
-        "Cal.Rebuild" => run(|| {
+        "Cal.Rebuild" | "Cal.Conflict" => run(|| {
             let p = partial_of(a)?;
             let ovf = arg_ovf(a);
             if js::opt_s(a, "via") == Some("calendar") {
